@@ -287,6 +287,9 @@ def collect(tier, seed, n, stream="pandas", gen=None, orders=None, nproc=16):
     if stream == "pandas":
         # long columns (>= 1000 rows) reach code paths short ones cannot (sampling)
         recipes = [G.gen_long_column(rng) for _ in range(16 if tier == "quick" else 200)] + recipes
+        # family x missing value x index kind grid (deterministic; a quarter of it in the quick tier, rotating with the seed)
+        grid = G.grid_recipes()
+        recipes = (grid if tier != "quick" else grid[seed % 4::4]) + recipes
         # minimised past failures and the witnesses of the known findings run first
         cp = os.path.join(os.path.dirname(os.path.abspath(__file__)), "..", "corpus", "pandas.json")
         if os.path.exists(cp):
